@@ -160,11 +160,13 @@ class Gen(object):
 
     def g_if(self, t, env, depth, pure):
         if self.fold_bias and self.ch.p(0.4):
-            test = self.ch.pick(["#t", "#f", "0", "'()", "(< 1 2)", "(= 2 3)", "(not #f)", "\"s\""])
+            test = self.ch.pick(["#t", "#f", "0", "'()", "(< 1 2)", "(= 2 3)", "(not #f)", "\"s\"", "'#f", "(quote #f)", "'#t", "'sym", "'(1)",
+                                 "(let ((cv '#f)) cv)", "(let ((cv #f)) cv)", "((lambda (cv) cv) '#f)", "(not '#f)", "(if '#f #t #f)", "(and '#f #t)",
+                                 "(or '#f #f)", "(eq? 'a 'a)", "(null? '())", "(pair? '())"])
             self.stats.add("const-test")
         else:
             test = self.expr(BOOL, env, depth - 1, pure)
-        if self.fold_bias and test in ("#t", "(< 1 2)", "(not #f)", "0", "'()", "\"s\"") and self.ch.p(0.3):
+        if self.fold_bias and test in ("#t", "(< 1 2)", "(not #f)", "0", "'()", "\"s\"", "'#t", "'sym", "'(1)", "(not '#f)", "(eq? 'a 'a)", "(null? '())") and self.ch.p(0.3):
             self.stats.add("dead-error-branch")
             dead = self.ch.pick(["(quotient 1 0)", "(car '())", "(+ 'a 1)", "(vector-ref (vector) 0)", "(error \"never\")"])
             return "(if %s %s %s)" % (test, self.expr(t, env, depth - 1, pure), dead)
